@@ -17,9 +17,52 @@ Property theorems only.  The models are
 the bits the reader will still deliver / the bits the writer has taken.
 -/
 import SimplicityModel.BitOps
+import SimplicityModel.Gen.BitConsts
 
 namespace Props.C13
 open Spk BitStream
+
+/-! ## 0. tie to the source -/
+
+/-- **Tie to the source**: the constants, comparison operators and loop shapes that
+`tools/translate_bitconsts.py` reads from `bititer.rs`, `bitwriter.rs` and `encode.rs` on every run
+are the ones the hand model is written with: a fresh reader (`cached_byte`, `read_bits = 8`,
+counter), the 8-bit cache and the bit mask of `next`, `size_hint`, the pair order of `read_u2`,
+the budget test / counter / shifts of `read_u8`, the `len > 31` and `ret > bound` checks and the
+`1`, `2 * n + bit` accumulator of `read_natural` (conversion before bound), the padding test of
+`close`, the zero padding of `collect_bits`, the cache and mask of `write_bit`, the test and resets
+of `flush_all`, most-significant-first order of `write_bits_be` and of byte writes, and the two
+loops / `⌊log2⌋` length of `encode_natural`; windows start at counter 0 with budget `end - start`. -/
+theorem gen_matches_model :
+    (Gen.BitConsts.NEW_CACHED = (Reader.new []).cached ∧
+     Gen.BitConsts.NEW_READ_BITS = (Reader.new []).readBits ∧
+     Gen.BitConsts.NEW_TOTAL = (Reader.new []).total ∧
+     Gen.BitConsts.WINDOW_TOTAL = (window [0, 0] 3 9).r.total ∧
+     Gen.BitConsts.WINDOW_BUDGET_IS_END_MINUS_START = true ∧
+     (window [0, 0] 3 9).limit = some (9 - 3)) ∧
+    (Gen.BitConsts.NEXT_STOPS_AT_BUDGET = 0 ∧ Gen.BitConsts.NEXT_CACHE_BITS = 8 ∧
+     Gen.BitConsts.NEXT_MASK_BASE = 8 ∧ Gen.BitConsts.NEXT_REFILL_READ_BITS = 0 ∧
+     Gen.BitConsts.HINT_CACHE_BITS = 8 ∧ Gen.BitConsts.HINT_BYTE_BITS = 8 ∧
+     Gen.BitConsts.U2_IS_BIG_ENDIAN_PAIR = true) ∧
+    (Gen.BitConsts.U8_BUDGET_OP = "lt" ∧ Gen.BitConsts.U8_BUDGET = 8 ∧
+     Gen.BitConsts.U8_TOTAL_INC = 8 ∧ Gen.BitConsts.U8_BUDGET_DEC = 8 ∧
+     Gen.BitConsts.U8_SHL_OVERFLOW_VALUE = 0 ∧ Gen.BitConsts.U8_SHR_BASE = 8) ∧
+    (Gen.BitConsts.NAT_LEN_OP = "gt" ∧ Gen.BitConsts.NAT_LEN_MAX = 31 ∧
+     Gen.BitConsts.NAT_BOUND_OP = "gt" ∧ Gen.BitConsts.NAT_ACC_INIT = 1 ∧
+     Gen.BitConsts.NAT_ACC_MUL = 2 ∧ Gen.BitConsts.NAT_LEN_INIT = 0 ∧
+     Gen.BitConsts.NAT_TRY_FROM_THEN_BOUND = true) ∧
+    (Gen.BitConsts.CLOSE_BITS_BASE = 8 ∧ Gen.BitConsts.CLOSE_PAD_OP = "ne" ∧
+     Gen.BitConsts.CLOSE_PAD_CMP = 0 ∧ Gen.BitConsts.COLLECT_BYTE_BITS = 8 ∧
+     Gen.BitConsts.COLLECT_PAD_BIT = false) ∧
+    (Gen.BitConsts.WRITER_CACHE_BITS = 8 ∧ Gen.BitConsts.WRITER_MASK_BASE = 8 ∧
+     Gen.BitConsts.FLUSH_OP = "gt" ∧ Gen.BitConsts.FLUSH_CMP = 0 ∧
+     Gen.BitConsts.FLUSH_CACHE_LEN = Writer.new.cacheLen ∧ Gen.BitConsts.FLUSH_CACHE = Writer.new.cache ∧
+     Gen.BitConsts.BE_MSB_FIRST = true ∧ Gen.BitConsts.WRITE_BYTE_BITS = 8 ∧
+     Gen.BitConsts.WRITE_BYTE_MASK_BASE = 7 ∧ Gen.BitConsts.ENC_LEN_IS_FLOOR_LOG2 = true ∧
+     Gen.BitConsts.ENC_TWO_LOOPS = true) := by
+  refine ⟨⟨rfl, rfl, rfl, rfl, rfl, rfl⟩, ⟨rfl, rfl, rfl, rfl, rfl, rfl, rfl⟩, ⟨by decide, rfl, rfl, rfl, rfl, rfl⟩,
+    ⟨by decide, rfl, by decide, rfl, rfl, rfl, rfl⟩, ⟨rfl, by decide, rfl, rfl, rfl⟩,
+    ⟨rfl, rfl, by decide, rfl, rfl, rfl, rfl, rfl, rfl, rfl, rfl⟩⟩
 
 /-! ## 1. naturals -/
 
